@@ -82,6 +82,9 @@ def plant(rng, prog):
         if it.kind == 'struct' and it.fields:
             f = rng.choice(it.fields)
             f.flatten = True
+            if rng.random() < 0.3 and f.serialized_as is None:
+                # flatten next to a (supported) serialized_as override: still flatten (seeded C08_e: the check sat on the no-override path only)
+                f.serialized_as = rng.choice(['String', 'Vec<String>', 'HashMap<String, String>', 'Option<u32>'])
             if f.skip is not None or skip:
                 f.skip = f.skip or 'typeshare'
                 d['skipped'] = True
@@ -90,6 +93,8 @@ def plant(rng, prog):
             v = rng.choice([v for v in it.variants if v.kind == 'struct'])
             f = rng.choice(v.fields)
             f.flatten = True
+            if rng.random() < 0.3 and f.serialized_as is None:
+                f.serialized_as = rng.choice(['String', 'Vec<String>', 'HashMap<String, String>', 'Option<u32>'])
             d['skipped'] = v.skip is not None or f.skip is not None
             d['where'] = f'serde(flatten) on variant field {v.ident}.{f.ident}'
         else:
